@@ -76,6 +76,16 @@ pub trait ReadValue {
 
     /// Return the current position of the reader.
     fn position(&self) -> u64;
+
+    /// Return the number of bytes between the current position and the end of
+    /// the input.
+    ///
+    /// Field lengths are validated against this value, so that a field cannot
+    /// extend beyond the end of the input. Readers which don't know the size
+    /// of their input can return `u64::MAX`.
+    fn remaining(&self) -> u64 {
+        u64::MAX
+    }
 }
 
 /// A Protocol Buffers primitive reader that returns owned values.
@@ -85,6 +95,9 @@ pub trait ReadValue {
 #[derive(Default)]
 pub struct ValueReader<R> {
     inner: R,
+
+    /// Total length of the input in bytes, or `u64::MAX` if unknown.
+    len: u64,
 }
 
 impl<R: BufRead + Seek + Position> ValueReader<R> {
@@ -93,9 +106,30 @@ impl<R: BufRead + Seek + Position> ValueReader<R> {
     /// See [`from_buf`](Self::from_buf) and [`from_file`](Self::from_file)
     /// for convenient wrappers for this which create readers from byte buffers
     /// and files.
-    pub fn new(inner: R) -> Self {
-        Self { inner }
+    pub fn new(mut inner: R) -> Self {
+        // Get the size of the input, so the length of fields can be validated
+        // before allocating buffers or seeking.
+        let len = stream_len(&mut inner).unwrap_or(u64::MAX);
+        Self { inner, len }
     }
+
+    fn check_has_bytes(&self, len: usize) -> Result<(), ProtobufError> {
+        if len as u64 <= self.remaining() {
+            Ok(())
+        } else {
+            Err(ProtobufError::new(ErrorKind::Eof))
+        }
+    }
+}
+
+/// Return the total length of a stream, preserving the current position.
+fn stream_len<R: Seek>(stream: &mut R) -> std::io::Result<u64> {
+    let pos = stream.stream_position()?;
+    let len = stream.seek(SeekFrom::End(0))?;
+    if pos != len {
+        stream.seek(SeekFrom::Start(pos))?;
+    }
+    Ok(len)
 }
 
 impl<T: AsRef<[u8]>> ValueReader<Cursor<T>> {
@@ -136,6 +170,7 @@ impl<R: BufRead + Seek + Position> ReadValue for ValueReader<R> {
         &mut self,
         len: usize,
     ) -> Result<<Self::Types as FieldTypes>::Bytes, ProtobufError> {
+        self.check_has_bytes(len)?;
         let mut buf = vec![0; len];
         self.inner.read_exact(&mut buf)?;
         Ok(buf)
@@ -150,12 +185,18 @@ impl<R: BufRead + Seek + Position> ReadValue for ValueReader<R> {
     }
 
     fn skip(&mut self, len: usize) -> Result<(), ProtobufError> {
-        self.inner.seek_relative(len as i64)?;
+        self.check_has_bytes(len)?;
+        let offset = i64::try_from(len).map_err(|_| ProtobufError::new(ErrorKind::Eof))?;
+        self.inner.seek_relative(offset)?;
         Ok(())
     }
 
     fn position(&self) -> u64 {
         self.inner.position()
+    }
+
+    fn remaining(&self) -> u64 {
+        self.len.saturating_sub(self.inner.position())
     }
 }
 
@@ -251,24 +292,29 @@ pub(crate) struct LimitReader<'a, R: ReadValue> {
 }
 
 impl<'a, R: ReadValue> LimitReader<'a, R> {
-    /// Create a reader which reads up to `len` bytes of `inner`.
+    /// Create a reader which reads up to `len` bytes of `inner`, or up to the
+    /// end of `inner` if there are fewer than `len` bytes remaining.
     pub fn new(inner: &'a mut R, len: u64) -> Self {
+        let len = len.min(inner.remaining());
         Self {
-            end: inner.position() + len,
+            end: inner.position().saturating_add(len),
             inner,
         }
     }
 
     /// Create a sub-reader which reads up to `len` bytes of this reader.
-    pub fn sub_limit(&mut self, len: u64) -> LimitReader<'_, R> {
-        LimitReader {
+    ///
+    /// Fails if there are fewer than `len` bytes remaining in this reader.
+    pub fn sub_limit(&mut self, len: u64) -> Result<LimitReader<'_, R>, ProtobufError> {
+        self.check_has_bytes(len)?;
+        Ok(LimitReader {
             end: self.inner.position() + len,
             inner: self.inner,
-        }
+        })
     }
 
-    fn check_has_bytes(&self, len: usize) -> Result<(), ProtobufError> {
-        if self.position() + (len as u64) <= self.end {
+    fn check_has_bytes(&self, len: u64) -> Result<(), ProtobufError> {
+        if len <= self.remaining() {
             Ok(())
         } else {
             Err(ProtobufError::new(ErrorKind::Eof))
@@ -294,14 +340,19 @@ impl<'a, R: ReadValue> ReadValue for LimitReader<'a, R> {
     fn read_varint(&mut self) -> Result<u64, ProtobufError> {
         // Varints are at least 1 byte long, and can be up to 10.
         self.check_has_bytes(1)?;
-        self.inner.read_varint()
+        let result = self.inner.read_varint();
+        if self.position() > self.end {
+            // The varint extends beyond the end of this reader.
+            return Err(ProtobufError::new(ErrorKind::InvalidVarint));
+        }
+        result
     }
 
     fn read_bytes(
         &mut self,
         len: usize,
     ) -> Result<<Self::Types as FieldTypes>::Bytes, ProtobufError> {
-        self.check_has_bytes(len)?;
+        self.check_has_bytes(len as u64)?;
         let bytes = self.inner.read_bytes(len)?;
         Ok(bytes)
     }
@@ -310,19 +361,23 @@ impl<'a, R: ReadValue> ReadValue for LimitReader<'a, R> {
         &mut self,
         len: usize,
     ) -> Result<<Self::Types as FieldTypes>::String, ProtobufError> {
-        self.check_has_bytes(len)?;
+        self.check_has_bytes(len as u64)?;
         let string = self.inner.read_string(len)?;
         Ok(string)
     }
 
     fn skip(&mut self, len: usize) -> Result<(), ProtobufError> {
-        self.check_has_bytes(len)?;
+        self.check_has_bytes(len as u64)?;
         self.inner.skip(len)?;
         Ok(())
     }
 
     fn position(&self) -> u64 {
         self.inner.position()
+    }
+
+    fn remaining(&self) -> u64 {
+        self.end.saturating_sub(self.inner.position())
     }
 }
 
